@@ -42,6 +42,16 @@ func c03Value(rng *h.Rng) string {
 	}
 }
 
+// c03InvalidValue: label values that are not valid UTF-8 (raw bytes, over-long and surrogate encodings, runes cut short,
+// runs of invalid bytes across the 100-byte cut). Only for transports that carry them: the Loki label text
+// (`\xNN` escapes inside the quoted value, JSON `labels` layout and protobuf) and the Influx line protocol (raw bytes).
+// Protobuf string fields and JSON strings cannot carry them.
+func c03InvalidValue(rng *h.Rng) string {
+	return h.Pick(rng, []string{"x\xffy", "\xff\xfe\xfd", "a\xc0\x80b", "\xed\xa0\x80", "\xf4\x90\x80\x80z", "ok\xe6\x97", "\xe6\x97\xa5\xff\xe6",
+		"\x80", "日\xff日\xfe\xfe日", strings.Repeat("v", 99) + "\xff\xfftail", strings.Repeat("v", 98) + "\xf0\x9f\x98\x80", strings.Repeat("v", 100) + "\xff",
+		"\xef\xbf\xbd\xff\xef\xbf\xbd"})
+}
+
 // style: 0 any text (JSON object key), 1 Go identifier (Loki label text), 2 plain (line protocol)
 func c03Name(rng *h.Rng, style int) string {
 	ident := func() string {
@@ -86,7 +96,14 @@ func c03LabelSet(rng *h.Rng, style int, minLabels int) []c03Label {
 			continue
 		}
 		seen[k] = true
-		ls = append(ls, c03Label{k, c03Value(rng)})
+		v := c03Value(rng)
+		if style != 0 && rng.Chance(15) {
+			v = c03InvalidValue(rng)
+		}
+		ls = append(ls, c03Label{k, v})
+	}
+	if style == 2 && rng.Chance(8) && !seen["bad\xffkey"] {
+		ls = append(ls, c03Label{h.Pick(rng, []string{"bad\xffkey", "\xe6\x97k", "k\xc0\x80"}), "v"})
 	}
 	if rng.Chance(12) && !seen["__ttl_days__"] {
 		ls = append(ls, c03Label{"__ttl_days__", h.Pick(rng, []string{"7", "0", "abc", "-1", "40000", "+3", "32767", "", "30"})})
